@@ -33,6 +33,7 @@ Definition dep := list relation.
 
 (* ---- arch.go / string.go for architectures: the definitions of A1, for which the round trip is proved ---- *)
 Definition parse_arch : str -> arch := A1.parse_arch.
+Definition arch_ok : str -> bool := A1.arch_ok.          (* ParseArch fails on a name with an empty component *)
 Definition any : str := A1.any.
 
 (* ---- parser.go ---- *)
@@ -55,12 +56,14 @@ Definition parse_substvar (i : str) : outcome (possi * str) :=
 (* parseMultiarch *)
 Definition multiarch_stop (c : ascii) : bool :=
   eqc c 44 || eqc c 124 || eqc c 0 || is_ws c || eqc c 40 || eqc c 91 || eqc c 60.
-Fixpoint multiarch_loop (name : str) (i : str) : arch * str :=
+Definition arch_named (name : str) (i : str) : outcome (arch * str) :=
+  if arch_ok name then Ok (parse_arch name, i) else Err.
+Fixpoint multiarch_loop (name : str) (i : str) : outcome (arch * str) :=
   match i with
-  | [] => (parse_arch name, [])
-  | c :: r => if multiarch_stop c then (parse_arch name, i) else multiarch_loop (name ++ enc c) r
+  | [] => arch_named name []
+  | c :: r => if multiarch_stop c then arch_named name i else multiarch_loop (name ++ enc c) r
   end.
-Definition parse_multiarch (i : str) : arch * str := multiarch_loop [] (adv i).
+Definition parse_multiarch (i : str) : outcome (arch * str) := multiarch_loop [] (adv i).
 
 (* parsePossibilityOperator *)
 Definition parse_operator (i : str) : outcome (str * str) :=
@@ -99,7 +102,7 @@ Fixpoint arch_name_loop (name : str) (i : str) : outcome (arch * str) :=
   match i with
   | [] => Err
   | c :: r => if eqc c 0 then Err else if eqc c 33 then Err
-              else if eqc c 93 || is_ws c then Ok (parse_arch name, i)
+              else if eqc c 93 || is_ws c then arch_named name i
               else arch_name_loop (name ++ enc c) r
   end.
 Definition parse_one_arch (set : archset) (i : str) : outcome (archset * str) :=
@@ -193,7 +196,10 @@ Fixpoint controllers (fuel : nat) (p : possi) (i : str) : outcome (possi * str) 
 Fixpoint possi_loop (fuel : nat) (p : possi) (rel : relation) (i : str) : outcome (relation * str) :=
   match fuel with O => OutOfFuel | S f =>
     let c := peek i in
-    if eqc c 58 then let '(a, i) := parse_multiarch i in possi_loop f (set_arch p a) rel i
+    if eqc c 58 then
+      match parse_multiarch i with
+      | Ok (a, i) => possi_loop f (set_arch p a) rel i
+      | Err => Err | OutOfFuel => OutOfFuel end
     else if is_ws c || eqc c 40 then
       match controllers f p i with
       | Ok (p, i) => possi_loop f p rel i
